@@ -12,7 +12,12 @@ base = sh("git merge-base HEAD wip-%s" % k, "/repo")[1].strip()
 rc, out = sh(f"git log --reverse --format=%h {base}..wip-{k}", "/repo")
 commits = out.split()
 remap = {}
+have = sh("git log --format=%s", "/repo")[1].split("\n")
 for h in commits:
+    subj = sh(f"git log --format=%s -1 {h}", "/repo")[1].strip()
+    if subj in have:
+        remap[h] = sh(f"git log --format=%h -1 --grep='{subj[:40]}' --fixed-strings", "/repo")[1].strip()
+        print("already picked", h); continue
     rc, out = sh(f"git cherry-pick {h}", "/repo")
     if rc != 0:
         rc2, files = sh("git diff --name-only --diff-filter=U", "/repo")
